@@ -347,6 +347,7 @@ def gen_rust(enums):
         w("        cli: &mut CliHandle<'_, Sink, SinkError>,")
         w("        raw: RawCommand<'a>,")
         w("    ) -> Result<(), ProcessError<'a, SinkError>> {")
+        w("        self.ctx.on_raw(&raw);")
         w("        match <%s as FromRaw<'a>>::parse(raw) {" % ta)
         w("            Ok(cmd) => self.ctx.on_ok(cli, cmd.dump()).map_err(ProcessError::WriteError),")
         w("            Err(e) => {")
